@@ -14,6 +14,8 @@ claimed={
 'C10':("Proof: every obligation generated from the go/ssa of the 10 Int operator built-ins, their argument checker and the prototype-chain walkers (postconditions from the property statement over mathematical integers with explicit 64-bit wrap-around) is discharged for all int64 operand pairs and all prototype chains; Int#** is a known finding (math.Pow).","DESIGN.md section 4 C10"),
 'C11':("Proof: arrIndex/strIndex against the indexing rule, fixRange against CPython's slice-index adjustment for every length and every int64 start/stop/step, valRange's loop (wrap-around modelled) never hands a position outside [0,size) to the element accessor, strRange/arrRange/findElemIn* panic-free.","DESIGN.md section 4 C11"),
 'C12':("Proof: isTruthy/canShortCut call the receiver's B exactly once (bool fast path aside); if-expressions evaluate the condition once and exactly one branch; && / || evaluate the right operand at most once and only when needed and return the deciding operand; guarded jumps do not evaluate their value on a false guard; closed forms of the ten per-type B built-ins and of `!`.","DESIGN.md section 4 C12"),
+'C13':("Proof: v.try is an EitherVal holding exactly v; EitherVal#fmap calls the step exactly once with the held value and returns an EitherVal of its result, or - when the step raised - an EitherErr whose captured error has the same kind and message (WrapErr); EitherErr#fmap calls nothing and returns the same Either (later steps are skipped); val/err/or/A of both variants return the single held slot (or nil) in the documented shape.","DESIGN.md section 4 C13 + Status as built"),
+'C14':("Proof: Iter#new and `_iter` return a new iterator over the same code whose scope and variable store are allocated in the call (never shared), enclosed by the definition scope; the copy made by `_iter` has exactly the bindings of the original (map-range completeness ghost); next binds recur and evaluates the body exactly once in the iterator's current scope; recur gives this iterator - and only it - a new scope with the new arguments; a body that runs to its end evaluates to its first yield; a guarded yield with a false guard is StopIterErr; chains reach iterators through iterOf/Next.","DESIGN.md section 4 C14 + Status as built"),
 'C15':("Proof: _evalStmts evaluates the statements in order and appends a DeferObj exactly when a statement's value is one (loop step contract), evalDefer evaluates the collected expressions in order, each once, stopping at the first error, evalStmts runs the defers after the body on every path and only a failing defer replaces the outcome; a plain/guarded defer does not evaluate its expression.","DESIGN.md section 4 C15"),
 'C20':("Proof of lock discipline: every read of symHashTable/strTable holds the RWMutex, every write holds it in write mode, acquisitions are not nested, the lock state at return equals that at entry, for every path of every function that touches the tables; plus the enumeration obligation that every package-level container written after initialisation is declared guarded.","DESIGN.md section 4 C20"),
 }
@@ -26,8 +28,6 @@ for pid,(text,ref) in sorted(claimed.items()):
 na_reasons={
 'C08':"not claimed: the ORDER obligations exist for infix/prefix/range/if/statements (they are part of C07/C12/C15's contracts) but array/object/map literals, argument lists, keyword arguments and embedded strings - where the known order defects are - are not under contract yet",
 'C09':"not claimed: NewInheritedMap/evalObj/evalMap first-wins step contracts not written yet (only their frames, under C06)",
-'C13':"not claimed: Either/try built-ins not under contract yet",
-'C14':"not claimed: iterNew/evalIterCall/recur contracts not written yet (iterOf/Next call shapes are under C04)",
 'C16':"not claimed: lexer buffer contracts (third_party/simplexer) not written yet; the layout/comment part is a statement about regular expressions and LALR tables",
 'C17':"literal denotation is computed by external strconv/math inside goyacc-generated action code and the name clause is a statement about an ordered regex table; no function contract within reach decides it (DESIGN.md section 5)",
 'C18':"not claimed: ==/<=> closed forms and law lemmas not written yet (Int#<=> value is proved under C10)",
